@@ -6,6 +6,19 @@
 #include "esl_getopts.h"
 #include "esl_fileparser.h"
 #include "esl_sq.h"
+#include "esl_sqio.h"
+#include <unistd.h>
+
+/* the two main loops of miniapps/esl-translate.c (static do_by_sequences / do_by_windows) and its own option table */
+#define main    xl_main
+#define options xl_options
+#define usage   xl_usage
+#define banner  xl_banner
+#include "miniapps/esl-translate.c"
+#undef main
+#undef options
+#undef usage
+#undef banner
 
 static ESL_ALPHABET *NT, *AA, *NTD, *NTR;   /* NT = the nucleic alphabet selected by the current op (nt=dna|rna) */
 
@@ -172,6 +185,48 @@ static void h_op(void)
     h_out("%s", b);
     free(b); free(cuts); free(txt); free(d); if (rc) free(rc);
     esl_gencode_WorkstateDestroy(wrk); esl_getopts_Destroy(go); esl_gencode_Destroy(g);
+  }
+  else if (!strcmp(op, "xlate")) {
+    /* xlate id= l= [m=1] [M=1] [watson=1] [crick=1] [W=1] lw=<fasta line width> n=<nseq> name<i>= desc<i>=<hex> dna<i>=<hex>
+     * the real main loops of esl-translate.c on a FASTA file, set up as its main() does; ORFs collected in wrk->orf_block.
+     * Each record is printed with the description ProcessOrf formatted (source= name of its sequence, desc= its description). */
+    char path[64] = "/tmp/c17xlXXXXXX", spoof[256], key[32]; int fd = mkstemp(path); FILE *fp = fd >= 0 ? fdopen(fd, "w") : NULL;
+    int nseq = (int) h_argi("n", 0), lw = (int) h_argi("lw", 60), i; ESL_GETOPTS *go; ESL_SQFILE *sqfp = NULL;
+    ESL_GENCODE *g; ESL_GENCODE_WORKSTATE *wrk; char *b = NULL; size_t cap = 0, len = 0; char tmp[200];
+    if (!fp) { h_out("esys"); return; }
+    for (i = 0; i < nseq; i++) {
+      int64_t n, dn, k; unsigned char *desc, *dna;
+      sprintf(key, "name%d", i); fprintf(fp, ">%s", h_arg(key) ? h_arg(key) : "x");
+      sprintf(key, "desc%d", i); desc = h_unhex(h_arg(key) ? h_arg(key) : "-", &n); if (n) fprintf(fp, " %s", (char *) desc); free(desc);
+      fputc('\n', fp);
+      sprintf(key, "dna%d", i); dna = h_unhex(h_arg(key) ? h_arg(key) : "-", &dn);
+      for (k = 0; k < dn; k += lw) { fwrite(dna + k, 1, (size_t) (dn - k < lw ? dn - k : lw), fp); fputc('\n', fp); }
+      free(dna);
+    }
+    fclose(fp);
+    sprintf(spoof, "esl-translate -c %d -l %d%s%s%s%s%s %s", (int) h_argi("id", 1), (int) h_argi("l", 20), h_argi("m", 0) ? " -m" : "", h_argi("M", 0) ? " -M" : "",
+            h_argi("watson", 0) ? " --watson" : "", h_argi("crick", 0) ? " --crick" : "", h_argi("W", 0) ? " -W" : "", path);
+    go = esl_getopts_Create(xl_options);
+    if (esl_opt_ProcessSpoof(go, spoof) != eslOK || esl_opt_VerifyConfig(go) != eslOK) { esl_getopts_Destroy(go); unlink(path); h_out("bad-options"); return; }
+    status = esl_sqfile_OpenDigital(NT, path, eslSQFILE_FASTA, NULL, &sqfp);
+    if (status != eslOK) { esl_getopts_Destroy(go); unlink(path); h_out("open-%s", h_status(status)); return; }
+    g = esl_gencode_Create(NT, AA);
+    if (esl_gencode_Set(g, esl_opt_GetInteger(go, "-c")) != eslOK) { esl_gencode_Destroy(g); esl_sqfile_Close(sqfp); esl_getopts_Destroy(go); unlink(path); h_out("enotfound"); return; }
+    if      (esl_opt_GetBoolean(go, "-m"))   esl_gencode_SetInitiatorOnlyAUG(g);
+    else if (! esl_opt_GetBoolean(go, "-M")) esl_gencode_SetInitiatorAny(g);
+    wrk = esl_gencode_WorkstateCreate(go, g);
+    wrk->orf_block = esl_sq_CreateDigitalBlock(4, AA);
+    if (esl_opt_GetBoolean(go, "-W")) do_by_windows(g, wrk, sqfp); else do_by_sequences(g, wrk, sqfp);
+    sprintf(tmp, "ok w=%d c=%d u=%d l=%d f=%d n=%d", wrk->do_watson, wrk->do_crick, wrk->using_initiators, wrk->minlen, wrk->outformat == eslSQFILE_FASTA, wrk->orf_block->count);
+    b = bufcat(b, &cap, &len, tmp);
+    for (i = 0; i < wrk->orf_block->count; i++) {
+      ESL_SQ *o = wrk->orf_block->list + i;
+      sprintf(tmp, " %s:%" PRId64 ":%" PRId64 ":%" PRId64 ":", o->name, o->start, o->end, o->n);
+      b = bufcat(b, &cap, &len, tmp); b = bufcat(b, &cap, &len, h_hex(o->dsq + 1, o->n));
+      b = bufcat(b, &cap, &len, ":"); b = bufcat(b, &cap, &len, h_hex(o->desc, (int64_t) strlen(o->desc)));
+    }
+    h_out("%s", b);
+    free(b); esl_gencode_WorkstateDestroy(wrk); esl_sqfile_Close(sqfp); esl_gencode_Destroy(g); esl_getopts_Destroy(go); unlink(path);
   }
   else if (!strcmp(op, "decode")) {
     /* esl_gencode_DecodeDigicodon for any int: the three characters stored (a read outside sym[] dies under ASan) */
